@@ -10,28 +10,6 @@ exactly one location, namely the location of that object.
 -/
 namespace Treepath
 
-/-! ### footprints: the objects a value unfolds through, with multiplicity -/
-mutual
-def fpJ (h : Heap) : J → Val → List Nat
-  | .obj kvs, .ref id => id :: (match h[id]? with | some (.dict es) => fpKvs h kvs es | _ => [])
-  | .arr ys, .ref id => id :: (match h[id]? with | some (.list xs) => fpList h ys xs | _ => [])
-  | .obj _, .atom _ => []
-  | .arr _, .atom _ => []
-  | .null, _ => []
-  | .bool _, _ => []
-  | .int _, _ => []
-  | .half _, _ => []
-  | .str _, _ => []
-def fpKvs (h : Heap) : List (String × J) → List (String × Val) → List Nat
-  | (_, j) :: kvs, (_, v) :: es => fpJ h j v ++ fpKvs h kvs es
-  | [], _ => []
-  | _ :: _, [] => []
-def fpList (h : Heap) : List J → List Val → List Nat
-  | j :: ys, v :: xs => fpJ h j v ++ fpList h ys xs
-  | [], _ => []
-  | _ :: _, [] => []
-end
-
 /-- no aliasing below `v`: every object is met once -/
 def Sep (h : Heap) (j : J) (v : Val) : Prop := (fpJ h j v).Nodup
 
